@@ -145,7 +145,7 @@ def gen_op(rng, n, backend, allow_meas=True):
             name = rng.choice(["Coherent", "Squeezed", "Vacuum", "Thermal"])
         return {"op": name, "p": [draw(rng, x) for x in PREPS[name]], "m": [rng.randrange(n)], "dg": False}
     if k == "chan":
-        name = rng.choice(sorted(CHANNELS))
+        name = rng.choice(sorted(CHANNELS)) if backend != "fock" else "LossChannel"
         return {"op": name, "p": [draw(rng, x) for x in CHANNELS[name]], "m": [rng.randrange(n)], "dg": False}
     name = rng.choice(sorted(FOCK_ONLY))
     p = [draw(rng, x) for x in FOCK_ONLY[name]]
@@ -183,7 +183,7 @@ def gen_spec(rng, backend=None, max_n=3):
         if rng.random() < 0.5:
             opsl.append(gen_op(rng, n, backend))
     # measurement at the end of a prefix: homodyne with / without post-selection
-    if rng.random() < 0.55:
+    if rng.random() < 0.55 and not (backend == "bosonic" and n == 1):  # bosonic homodyne needs a second mode
         m = rng.randrange(n)
         sel = None if (rng.random() < 0.35) else _r3(rng.uniform(-1.0, 1.0))
         if backend == "fock" and sel is None:
